@@ -105,3 +105,48 @@ def stale_extensions() -> list:
         if os.path.getmtime(pyx) > max(os.path.getmtime(s) for s in sos) + 1.0:
             stale.append(os.path.relpath(pyx, REPO))
     return sorted(stale)
+
+
+def rebuild_stale_c_extensions(scratch):
+    """Checks run against /repo's current working tree.  Python sources are imported live; compiled extensions cannot be
+    regenerated from .pyx here (no Cython), but when a generated .c file is NEWER than its .so (someone changed the C
+    translation unit), it is recompiled with gcc into an overlay copy of the package under `scratch`, which is then put
+    in front of /repo on the import path.  Returns (overlay root or None, list of rebuilt modules, list of errors)."""
+    import glob
+    import json
+    import subprocess
+    import sysconfig
+    cfg_path = os.path.join(REPO, 'cython_extensions.json')
+    if not os.path.exists(cfg_path):
+        return None, [], []
+    with open(cfg_path) as f:
+        exts = json.load(f)
+    stale = []
+    for key, e in exts.items():
+        rel = os.path.join(*e['sources'][0])
+        c = os.path.join(REPO, rel[:-4] + '.c')
+        sos = glob.glob(os.path.join(REPO, rel[:-4] + '.*.so'))
+        if os.path.exists(c) and sos and os.path.getmtime(c) > max(os.path.getmtime(x) for x in sos) + 1.0:
+            stale.append((key, e, rel[:-4], os.path.basename(sos[0])))
+    if not stale:
+        return None, [], []
+    overlay = os.path.join(scratch, 'overlay')
+    shutil.copytree(os.path.join(REPO, 'TidalPy'), os.path.join(overlay, 'TidalPy'), ignore=shutil.ignore_patterns('__pycache__'))
+    import numpy
+    rebuilt, errors = [], []
+    try:
+        import CyRK
+        cyrk_inc = ['-I' + os.path.join(os.path.dirname(CyRK.__file__), 'cy')]
+    except Exception:
+        cyrk_inc = []
+    for key, e, stem, so_name in stale:
+        inc = ['-I' + os.path.join(REPO, *d) for d in e.get('include_dirs', [])]
+        cmd = (['gcc', '-shared', '-fPIC', '-O2', '-fopenmp', '-DNPY_NO_DEPRECATED_API=NPY_1_7_API_VERSION',
+                '-I' + sysconfig.get_paths()['include'], '-I' + numpy.get_include()] + cyrk_inc + inc + e.get('compile_args', []) +
+               [os.path.join(REPO, stem + '.c'), '-o', os.path.join(overlay, os.path.dirname(stem), so_name)] + e.get('link_args', []))
+        p = subprocess.run(cmd, capture_output=True, text=True)
+        if p.returncode == 0:
+            rebuilt.append(e['name'])
+        else:
+            errors.append('%s: gcc failed: %s' % (e['name'], p.stderr[-300:]))
+    return overlay, rebuilt, errors
